@@ -14,6 +14,8 @@ def work(item, opts):
         case = universe.battery()[item["b"]]
     elif "n" in item:
         case = universe.battery_inf()[item["n"]]
+    elif "v" in item:
+        case = dict(universe.boundary_battery()[item["v"]])
     elif "e" in item:
         case = universe.case_ext(item["e"])
         for k in ("mode", "workers"):
